@@ -51,9 +51,9 @@ func setup(repo string, tier string) (*Verifier, error) {
 		return nil, err
 	}
 	v.tmpdir = tmp
-	v.timeoutMs = 10000
+	v.timeoutMs = 30000
 	if tier == "thorough" {
-		v.timeoutMs = 60000
+		v.timeoutMs = 120000
 		v.agree = true
 	}
 	return v, nil
@@ -409,7 +409,7 @@ func cmdCheck(args []string) int {
 	}
 	// registered obligations must still be generated
 	for _, e := range expected {
-		if byLabel[e] == 0 {
+		if byLabel[e] == 0 && !*register {
 			violations++
 			p := filepath.Join(replayDir, sanitize("missing-"+e)+".json")
 			data, _ := json.MarshalIndent(map[string]interface{}{"property": *prop, "obligation": e, "detail": "registered obligation is no longer generated (contract detached, function renamed or clause removed)"}, "", " ")
@@ -423,7 +423,9 @@ func cmdCheck(args []string) int {
 	if *register && violations == 0 {
 		var names []string
 		for n := range byLabel {
-			names = append(names, n)
+			if strings.Contains(n, "#C") { // only labelled obligations are required to exist
+				names = append(names, n)
+			}
 		}
 		sort.Strings(names)
 		registry[*prop] = names
